@@ -17,7 +17,7 @@ _files = {}
 
 def gen(rng, tier):
     cases = []
-    n = 120 if tier == "quick" else 5000
+    n = 120 if tier == "quick" else 1000
     for i in range(n):
         data, meta, info = streamgen.gen_file(rng, small=(i % 7 == 0))
         cl = meta["cl"]
